@@ -456,6 +456,10 @@ func runC14(t *testing.T, sc *Scenario) Result {
 		// the event
 		var evs []map[string]interface{}
 		for _, e := range obs.Events {
+			// (two peers may share address and source port and differ in the destination port only)
+			if dp, ok := e.M["destination-port"]; ok && fmt.Sprint(dp) != fmt.Sprint(ps.DPort) {
+				continue
+			}
 			if fmt.Sprint(e.M["source-ip"]) == ps.IP && fmt.Sprint(e.M["source-port"]) == fmt.Sprint(ps.Port) && e.M["category"] != "portscan" {
 				evs = append(evs, e.M)
 			}
